@@ -943,6 +943,18 @@ def _propagate_locals(fn, ctx):
             late = [ld for ld in loads if info.order.get(info.owner.get(id(ld)), -1) > at]
             if len(late) != len(loads):
                 continue
+            t_ = val.id
+            if '__' in t_ and '__' not in name and t_ not in info.params \
+                    and not any(isinstance(n, (ast.FunctionDef, ast.ClassDef)) and n.name in (t_, name) for n in ast.walk(fn) if n is not fn) \
+                    and not any(isinstance(n, ast.arg) and n.arg in (t_, name) for n in ast.walk(fn)):
+                # the source is a temporary introduced by helper inlining: keep the name the programmer wrote (t and x are one variable from here on, and x
+                # does not occur before the copy)
+                for n in ast.walk(fn):
+                    if isinstance(n, ast.Name) and n.id == t_:
+                        n.id = name
+                _remove_stmt(fn, asg)
+                ast.fix_missing_locations(fn)
+                return True
             plan, rest = late, 0
         elif kind == 'ref':
             if rest or not plan:
